@@ -24,7 +24,7 @@ var bodyTable = []struct {
 var bodyFieldSet = map[string]bool{"Timestamp": true, "Nonce": true, "EmitterChain": true, "TargetChain": true, "EmitterAddress": true, "Sequence": true, "ConsistencyLevel": true, "Payload": true}
 
 func init() {
-	register("C04", "Three-way layout comparison decided from source: (layout-go) the ordered write table of (*VAA).serializeBody is extracted from its syntax tree with go/types widths and compared with the property's offsets 0,4,8,10,12,44,52,53, big-endian, no conditional or looped write; (agree) Messages.sol parseVM is walked symbolically over its `index` cursor and governance.ral parseAndVerifyVAA's byteVecSlice bounds are evaluated as linear forms, both by hand-written subset parsers, and every contract-side field offset/width, the body start (6+66*signatures), the header (version 1, set index 4, count 1, signature 1+65) and the double-keccak of the body must equal the Go table; (reads) serializeBody/signingBody/SigningMsg read only the eight body fields and call only an allow-list of pure functions; (injective) every field but the last is fixed width; (build) handleMessage's VAA is a field-for-field copy of the chain message.", c04)
+	register("C04", "Three-way layout comparison decided from source: (layout-go) the ordered write table of (*VAA).serializeBody is extracted from its syntax tree with go/types widths and compared with the property's offsets 0,4,8,10,12,44,52,53, big-endian, no conditional or looped write; (agree) Messages.sol parseVM is walked symbolically over its `index` cursor and governance.ral parseAndVerifyVAA's byteVecSlice bounds are evaluated as linear forms, both by hand-written subset parsers, and every contract-side field offset/width, the body start (6+66*signatures), the header (version 1, set index 4, count 1, signature 1+65) and the double-keccak of the body must equal the Go table; (reads) serializeBody/signingBody/SigningMsg read only the eight body fields and call only an allow-list of pure functions; (injective) every field but the last is fixed width; (build) handleMessage's VAA is a field-for-field copy of the chain message. (own-payload) vaa.Unmarshal does not store a sub-slice of its input into VAA.Payload.", c04)
 }
 
 // goBodyTable extracts serializeBody's write table; recvName is replaced by "v".
